@@ -53,5 +53,8 @@ def main(ck):
         ck.correspond("sweep-trajectory", "drv_c08", cases)
         cases = ck.harness("c08", ["prob"])
         ck.correspond("slot-probabilities", "drv_c08", cases)
+        # generic sampler, heat-bath, interaction added after the lazily built table exists: sweeps replayed with the table of
+        # the CURRENT interactions, insert probability of the NEW bond bisected
+        ck.correspond("generic-sampler-heatbath", "drv_c08", ck.harness("c08", ["generic"]))
     law_audits.run(ck, groups=['refine', 'ideal', 'sweep'])   # idealised law of the executable model = the Markov kernel of the invariance theorems
     return ck.finish(RULE)
